@@ -195,6 +195,70 @@ def lookup_refs_section(ctx):
             ctx.corr_mismatch(case, "Gallina `read` of the statements (language system -> lookups) differs from what feaLib compiled from them")
 
 
+def rules_section(ctx):
+    """variable fonts whose designspace RULES put unencoded alternates in place of a script's letters -- one glyph replaced by
+    DIFFERENT alternates in two rules (heavy / light), the script's only kerning sitting on the alternates of the rule listed
+    first, last, or on both: every declared script reaches the generated kern that applies its pairs, and mark"""
+    import ufo2ft
+    from harness import dsgen
+    from fontTools.ttLib import TTFont
+    from fontTools.designspaceLib import RuleDescriptor
+    rng = ctx.subrng("rules")
+    for i in range(ctx.budget(8, 24)):
+        lib = ["ufoLib2", "defcon"][i % 2]
+        fn = ["compileVariableTTF", "compileVariableCFF2"][(i // 2) % 2]
+        where = ["first-rule", "last-rule", "both"][(i // 4) % 3]
+        LET = [("A", 0x41), ("V", 0x56), ("alpha", 0x3B1), ("beta", 0x3B2)]
+        ALT = ["alpha.heavy", "beta.heavy", "alpha.light", "beta.light"]
+
+        def master(k):
+            gl = [{"name": n, "unicodes": [u], "width": Fr(500 + 20 * k), "components": [], "anchors": [("top", Fr(250), Fr(700 + 5 * k))],
+                   "contours": [[(Fr(100), Fr(0), "line"), (Fr(150 + 30 * k), Fr(0), "line"), (Fr(150 + 30 * k), Fr(400), "line"), (Fr(100), Fr(400), "line")]]}
+                  for n, u in LET]
+            gl += [{"name": n, "unicodes": [], "width": Fr(500 + 20 * k), "components": [], "anchors": [("top", Fr(250), Fr(700 + 5 * k))],
+                    "contours": [[(Fr(100), Fr(0), "line"), (Fr(160 + 30 * k), Fr(0), "line"), (Fr(160 + 30 * k), Fr(410), "line"), (Fr(100), Fr(410), "line")]]}
+                   for n in ALT]
+            gl.append({"name": "acutecomb", "unicodes": [0x301], "width": Fr(0), "components": [], "anchors": [("_top", Fr(0), Fr(500))],
+                       "contours": [[(Fr(-30), Fr(520), "line"), (Fr(30 + k), Fr(520), "line"), (Fr(0), Fr(600), "line")]]})
+            kern = {("A", "V"): Fr(-40 - 5 * k)}
+            if where in ("first-rule", "both"):
+                kern[("alpha.heavy", "beta.heavy")] = Fr(-30 - 5 * k)
+            if where in ("last-rule", "both"):
+                kern[("alpha.light", "beta.light")] = Fr(-20 - 5 * k)
+            return {"glyphs": gl, "glyphOrder": [g["name"] for g in gl], "kerning": kern, "groups": {}, "lib": {},
+                    "features": "languagesystem DFLT dflt;\nlanguagesystem latn dflt;\nlanguagesystem grek dflt;\n",
+                    "info": {"familyName": "Fam", "styleName": "M%d" % k, "unitsPerEm": 1000, "ascender": 800, "descender": -200}}
+        masters = [master(1), master(0), master(2)]
+        ds, fonts = dsgen.make_designspace(rng, masters, lib, axes=[("Weight", "wght", 100, 400, 900)],
+                                           locations=[{"Weight": 400}, {"Weight": 100}, {"Weight": 900}], instances=False)
+        for name, lo, hi, suffix in (("heavy", 700, 900, ".heavy"), ("light", 100, 300, ".light")):
+            r = RuleDescriptor(); r.name = name
+            r.conditionSets = [[{"name": "Weight", "minimum": lo, "maximum": hi}]]
+            r.subs = [("alpha", "alpha" + suffix), ("beta", "beta" + suffix)]
+            ds.addRule(r)
+        case = {"function": fn, "lib": lib, "greek_kerning_on": where, "rules": [[r.name, list(map(list, r.subs))] for r in ds.rules],
+                "font": jsonable(masters[0])}
+        ctx.count(); ctx.klass("rules: one glyph replaced by two rules / kerning on %s" % where); ctx.nontriv(("rules", i, ctx.scale))
+        try:
+            tt = getattr(ufo2ft, fn)(ds, useProductionNames=False)
+            buf = io.BytesIO(); tt.save(buf); buf.seek(0); tt = TTFont(buf)
+        except Exception as e:
+            ctx.spec_failure(case, "%s raised %s: %s\n%s" % (fn, type(e).__name__, e, traceback.format_exc()[-1000:]))
+            continue
+        lay = Layout(tt)
+        sc = lay.scripts()
+        for t in ("latn", "grek"):
+            feats = sc.get(t, {}).get("dflt", [])
+            for f in ("kern", "mark"):
+                if f not in feats:
+                    ctx.spec_failure(case, "declared script %s does not expose the generated %s feature (it has %r)" % (t, f, feats))
+        for (a, b), v in masters[0]["kerning"].items():
+            t = "latn" if a == "A" else "grek"
+            got = lay.pair_adjust(lay.lookups_for(t, {"kern"}), a, b)
+            if got[0] != v:
+                ctx.spec_failure(dict(case, pair=[a, b]), "pair (%s, %s) = %s of the default master is not applied under script %r (got %r)" % (a, b, v, t, got[:3]))
+
+
 def cross_script_section(ctx):
     """kerning pairs BETWEEN scripts, linking three to five declared left-to-right scripts into chains (some scripts kerned only
     across scripts): every script of a pair's glyphs must reach, from its default language system, a generated kern lookup that
@@ -281,6 +345,7 @@ def cross_script_section(ctx):
 
 def explore(ctx):
     lookup_refs_section(ctx)
+    rules_section(ctx)
     cross_script_section(ctx)
     import ufo2ft
     from fontTools.ttLib import TTFont
